@@ -1017,48 +1017,33 @@ pub fn unify(
     };
 
     match (&pattern, &concrete) {
-        // When pattern is a variable, bind it or check consistency
+        // When pattern is a variable, bind it or widen its binding.
+        //
+        // `bindings` belong to the type variables of the PARAMETER type (the callee's). The
+        // argument's type (`concrete`) lives in the caller's scope: a type variable in it is the
+        // caller's — opaque here, even when it is spelled like one of the callee's (a generic
+        // function calling another one whose parameters are also named 'a, 'b). It is therefore
+        // never looked up in `bindings`; doing so let `'a := 'b | 'bin`, `'b := 'a` chase each
+        // other for ever. `substitute` replaces simultaneously, so binding the callee's 'a to a
+        // type that mentions the caller's 'a is harmless.
         (Type::Variable(name), _) => {
-            // First, resolve concrete if it's also a variable
-            let resolved_concrete_id = if let Type::Variable(concrete_name) = &concrete {
-                bindings.get(concrete_name).copied().unwrap_or(concrete_id)
-            } else {
-                concrete_id
-            };
-
             if let Some(existing_id) = bindings.get(name).copied() {
                 // Variable already bound - widen to union if different
-                if existing_id != resolved_concrete_id {
-                    // Widen the type variable to a union
-                    let widened = union_type_ids(program, vec![existing_id, resolved_concrete_id]);
+                if existing_id != concrete_id {
+                    let widened = union_type_ids(program, vec![existing_id, concrete_id]);
                     bindings.insert(name.clone(), widened);
                 }
             } else {
-                // New binding - but make sure we're not binding a variable to itself
-                if let Some(Type::Variable(resolved_name)) =
-                    program.lookup_type(resolved_concrete_id)
-                    && resolved_name == name
-                {
-                    // Don't bind a variable to itself
-                    return Ok(());
-                }
-                bindings.insert(name.clone(), resolved_concrete_id);
+                bindings.insert(name.clone(), concrete_id);
             }
             Ok(())
         }
 
-        // When concrete is a variable, resolve it and try unifying with the resolved type
-        (_, Type::Variable(name)) => {
-            if let Some(&resolved_id) = bindings.get(name) {
-                // Concrete variable is bound - unify with its binding
-                unify(bindings, pattern_id, resolved_id, program)
-            } else {
-                // Concrete variable is unbound - this shouldn't happen in normal unification
-                Err(Error::TypeUnresolved(
-                    "Cannot unify with unbound type variable in concrete position".to_string(),
-                ))
-            }
-        }
+        // A type variable of the caller where the parameter wants something structured: the
+        // variable may stand for any type, so the argument cannot be shown to fit.
+        (_, Type::Variable(_)) => Err(Error::TypeUnresolved(
+            "Cannot unify with unbound type variable in concrete position".to_string(),
+        )),
 
         // Both are basic types - must match
         (Type::Integer, Type::Integer) => Ok(()),
@@ -1100,7 +1085,10 @@ pub fn unify(
 
         // Tuple types must match structurally
         (Type::Tuple(id1), Type::Tuple(id2)) => {
-            if id1 == id2 {
+            // The same tuple type on both sides needs no look inside — unless it mentions type
+            // variables: then the parameter's are the callee's and the argument's the caller's
+            // (spelled alike), and the callee's still have to be bound.
+            if id1 == id2 && !contains_variables(pattern_id, &*program) {
                 return Ok(());
             }
 
